@@ -66,7 +66,8 @@ def _msg(i, text, sn):
 
 
 def _poll(i, text, sn):
-    return {'op': 'poll', 'task': _tid(i), 'msg': text, 'sn': sn}
+    # the result of a jobs-poll command for job sn (through the real poll callbacks)
+    return {'op': 'pollres', 'task': _tid(i), 'state': text, 'sn': sn}
 
 
 # prefix name -> (retry variant, function(points) -> ops, submit number reached)
@@ -170,6 +171,9 @@ def comp_case(prefix, retries, chunk, second=None):
     ops = list(ops) + [probe_op(i, pr) for i, pr in zip(pts, prs)] + [L]
     if second is not None:
         rot = (allp[second % len(allp):] + allp[:second % len(allp)])[chunk * CHUNK:(chunk + 1) * CHUNK]
+        # a received "submitted" for an instance that the first probe removed from the pool crashes the scheduler
+        # (findings/C10.json: orphan-submitted-crash): not a job event, not generated as a second probe
+        rot = [('msg', 'hello', pr[2]) if pr[0] == 'msg' and pr[1] == 'submitted' else pr for pr in rot]
         ops += [probe_op(i, pr) for i, pr in zip(pts, rot)] + [L]
     ops += [L]
     cid = f'comp-{prefix}-{retries or "N"}-c{chunk}' + (f'-{second}' if second is not None else '')
@@ -184,6 +188,11 @@ def n_chunks(prefix):
 
 def comp_cases(tier, rng):
     cases = [comp_case(p, r, c) for p, r in PREFIXES for c in range(n_chunks(p))]
+    if tier == 'quick':
+        # every state in every run, a seeded half of the probe chunks (thorough runs them all)
+        keep = {(p, rng.randrange(2)) for p, _r in PREFIXES}
+        cases = [c for c in cases if n_chunks(c['id'].split('-')[1]) == 1 or
+                 (c['id'].split('-')[1], int(c['id'].split('-c')[-1]) % 2) in keep]
     if tier != 'quick':
         for p, r in PREFIXES:
             for k in (1, 5, 11, 17, 23):
@@ -197,7 +206,7 @@ GEN_OPTS = {'polls': True, 'noise': 0.35, 'p_poll_late': 0.0}
 class MsgProp(SchedProp):
     """Shared by C09 and C10 (same cases, different judges)."""
     kinds = ('any', 'any', 'complete')
-    n_quick = 36
+    n_quick = 24
     n_thorough = 420
     gen_opts = GEN_OPTS
     exhaustive = False
@@ -248,17 +257,67 @@ class MsgProp(SchedProp):
 class C09(MsgProp):
     id = 'C09'
     props_modules = ['CylcModel.Props.C09']
-    theorems = []
-    statement_note = ''
+    theorems = [
+        'CylcModel.C09.outputs_monotone',
+        'CylcModel.C09.outputs_monotone_deliver',
+        'CylcModel.C09.implied_outputs',
+        'CylcModel.C09.implied_outputs_deliver',
+        'CylcModel.C09.lifecycle_partial',
+        'CylcModel.C09.lifecycle_trace',
+        'CylcModel.C09.lifecycle_counterexample',
+        'CylcModel.C09.lifecycle_counterexample_received',
+        'CylcModel.C09.processMessage_is_step',
+        'CylcModel.C09.sched_message',
+        'CylcModel.C09.runX_base',
+        'CylcModel.C09.outputs_monotone_run',
+        'CylcModel.C09.outputs_monotone_pooled',
+        'CylcModel.C09.implied_outputs_run',
+        'CylcModel.C09.lifecycle_run',
+    ]
+    statement_note = (
+        'partial proof. Component (Msg.step = TaskEventsManager.process_message on one task proxy: output completion, '
+        'implied outputs first, backward checks, retries, removal when finished and complete), for every task '
+        'definition, proxy, flag, submit number, message text: outputs are never un-completed, identity and submit '
+        'number are fixed (outputs_monotone, also over any delivery sequence); status/outputs consistency incl. '
+        '"succeeded or failed complete => submitted and started complete" is preserved by every message and every '
+        'delivery sequence (implied_outputs, for tasks with the standard outputs); lifecycle: the full statement is '
+        'FALSE on cylc-flow (lifecycle_full, lifecycle_counterexample: a late poll result started takes succeeded -> '
+        'running; lifecycle_counterexample_received: started after submit-failed is accepted); proved is '
+        'lifecycle_partial / lifecycle_trace: outside the explicit decidable set Msg.Deviant (polled or internal '
+        'message behind the status; job message after submit-failed/expired; succeeded after failed; a repeated '
+        'failure event of a finished task with a retry left - unreachable) every message, and every consecutive pair '
+        'of a delivery trace, moves the status forward along the lifecycle (stages may be skipped forward) or back to '
+        'waiting from preparing/submitted/running on a failure event with a retry left, advancing that retry counter '
+        'by one. Scheduler lift: processMessage_is_step - for every instance graph without self-children (decidable '
+        'noSelfChild, checked by the driver on every extracted graph), every state and message, Sched.processMessage '
+        'changes the addressed proxy (or transient object) exactly as Msg.step and requests the same poll, whatever '
+        'spawning, suicide triggers, completion removal, parentless spawning and DB history do around it (given no '
+        'older transient object shadows the proxy); sched_message - the same for the pooled proxy from ANY consistent '
+        'state, with no assumption on transient objects (pool-only simulation pm_simP), transporting outputs-monotone / '
+        'consistency / lifecycle to every Sched.processMessage call. Run level, for every instance graph (the last two '
+        'for graphs without self-children whose tasks have submitted/started outputs - decidable, checked by the '
+        'driver on every extracted graph), every op list of main loops, submit results, job messages and poll results, '
+        'and every reached state: outputs_monotone_run - one more op keeps every output on record for every task '
+        'instance (pooled proxy, else its latest DB record, from which a respawn starts); implied_outputs_run - every '
+        'pooled proxy is consistent, in particular succeeded or failed complete => submitted and started complete '
+        '(inductive invariants proved primitive by primitive: spawning, suicide and completion removal, DB-history '
+        'revival, queue release, message batches); lifecycle_run - the ops that deliver one message (submit result, '
+        'poll result of the current job) move the addressed proxy along the lifecycle unless Msg.Deviant. NOT proved: '
+        'the lifecycle of a whole main-loop op as one relation between consecutive states (each message of a batch obeys '
+        'sched_message from a state satisfying the invariant, and job preparation waiting -> preparing is '
+        'releaseAndSubmit on queued proxies; that queued proxies are waiting is not proved as an invariant); expiry is '
+        'not modelled. The frozen Sched model has no poll-result op: Msg.XOp / stepX / runX add it (dispatch by current '
+        'submit number, then processMessage with the polled flag; runX_base: conservative); forced (cylc set) messages '
+        'and commands are not modelled')
     technique = ('case analysis over the message step function, simulation of Sched.processMessage by it, inductive '
-                 'invariants over op lists + enumerated and generated trace correspondence with the real Scheduler')
+                 'invariants over delivery lists + enumerated and generated trace correspondence with the real Scheduler')
     rule = ('component enumeration: 19 reachable message states (status x outputs x try state, incl. second tries and '
-            'started-before-submitted) x 29 probes (internal submit results, received messages of the same / older / newer '
-            'submit number for 7 message kinds, polled results), one probe per task instance of a one-task-per-cycle '
-            'workflow in the real scheduler (thorough: pairs of probes); plus generated workflows under the seeded '
-            'adaptive schedule with duplicate/stale/out-of-order messages, answered and routine polls (a quarter with '
-            'late poll results); non-trivial = distinct (state, retry variant) or (kind, polled, stale, backward, retry, '
-            'size) class per distinct case')
+            'started-before-submitted) x up to 32 probes (internal submit results, received messages of the same / older / '
+            'newer submit number for 7 message kinds, polled results incl. those of the previous job), one probe per task '
+            'instance of a one-cycle workflow in the real scheduler (thorough: pairs of probes); plus generated workflows '
+            'under the seeded adaptive schedule with duplicate/stale/out-of-order messages, answered and routine polls '
+            '(a quarter with late poll results); non-trivial = distinct (state, retry variant, chunk) or (kind, polled, '
+            'stale, backward, retry, size) class per distinct case')
 
 
 PROP = C09()
